@@ -532,7 +532,8 @@ func main() {
 		}
 		sort.Strings(names)
 		dir, info := ensureBuilt(names, false)
-		fmt.Printf("built %v in %s (%.1fs total build time recorded)\n", names, dir, info.BuildS)
+		ensureBuilt([]string{"lib"}, true) // the -race build of the auxiliary lane
+		fmt.Printf("built %v (+ lib with -race) in %s (%.1fs total build time recorded)\n", names, dir, info.BuildS)
 	case "selftest":
 		tier := "quick"
 		for i := 2; i < len(os.Args); i++ {
@@ -562,6 +563,9 @@ func findProp(id string) *propDef {
 	}
 	return nil
 }
+
+// terminationProps state that calls return / processing ends in bounded time.
+var terminationProps = map[string]bool{"C02": true, "C07": true, "C09": true, "C11": true, "C13": true, "C16": true, "C19": true}
 
 func (p *propDef) harnessList() []string { return append([]string{p.Harness}, p.Also...) }
 
@@ -720,11 +724,39 @@ func runCheck(id, tier string) int {
 	// merge
 	agg := &summary{Probes: map[string]int{}, Faults: map[string]int{}, FaultRuns: map[string]int{}, Strategies: map[string]int{}, Verdicts: map[string]int{}, ClassCounts: map[string]int{}}
 	pairs := map[uint64]struct{}{}
-	var infra, nondet []string
+	var infra, nondet, cpuLoops []string
 	var viols []violation
 	for _, br := range results {
 		if br.exit == 3 {
-			infra = append(infra, "worker watchdog fired (a goroutine ran without reaching a yield point for 30 s of real time): "+tail(br.stderr, 1500))
+			// A goroutine ran for 30 s of real time without reaching a yield point.  For
+			// the properties that state termination this is a violation if (and only
+			// if) the dumped tape stalls again in a fresh process.
+			confirmed := false
+			if terminationProps[id] {
+				if b, err := os.ReadFile(br.dump); err == nil {
+					var d struct {
+						Scen []uint32 `json:"scen"`
+						Dyn  []uint32 `json:"dyn"`
+						Seed uint64   `json:"seed"`
+					}
+					if json.Unmarshal(b, &d) == nil {
+						rf := replayFile{Property: id, Class: id + "/cpu-loop", Msg: "a goroutine of the code under test ran without ever reaching a scheduling point (endless loop): the run stalled twice, in the worker and in a fresh-process replay", Tier: tier, CheckSeed: seed,
+							RunSeed: d.Seed, Scen: d.Scen, Dyn: d.Dyn, TreeFP: binfo.Fingerprint, Engine: "vsim-1", Harness: br.harness, Schedule: []string{tail(br.stderr, 4000)}}
+						tmp := filepath.Join(scratch, "cpuloop-in.json")
+						writeJSON(tmp, rf)
+						if _, code, _ := replayOnceEnv(filepath.Join(dir, br.harness+".test"), p, tmp, scratch, map[string]string{"VSIM_WATCHDOG_S": "12"}); code == 3 {
+							path := filepath.Join(verifDir, "replays", fmt.Sprintf("%s-%d-cpuloop-%s.json", id, seed, shortHash(fmt.Sprint(d.Scen))))
+							os.MkdirAll(filepath.Dir(path), 0o755)
+							writeJSON(path, rf)
+							cpuLoops = append(cpuLoops, path)
+							confirmed = true
+						}
+					}
+				}
+			}
+			if !confirmed {
+				infra = append(infra, "worker watchdog fired (a goroutine ran without reaching a yield point for 30 s of real time) and the stall did not reproduce: "+tail(br.stderr, 1500))
+			}
 			continue
 		}
 		if br.sum == nil {
@@ -802,6 +834,13 @@ func runCheck(id, tier string) int {
 		return len(viols[i].Scen)+len(viols[i].Dyn) < len(viols[j].Scen)+len(viols[j].Dyn)
 	})
 	os.MkdirAll(filepath.Join(verifDir, "replays"), 0o755)
+	for _, path := range cpuLoops {
+		fmt.Printf("violation class %s/cpu-loop: a goroutine of the code under test never reached a scheduling point again (endless loop), reproduced in a fresh process\n", id)
+		fmt.Printf("VIOLATION property=%s replay=%s\n", id, path)
+		nViol++
+		exit = 1
+		break
+	}
 	for _, v := range viols {
 		if seenClass[v.Class] {
 			continue
@@ -1166,17 +1205,28 @@ func writeJSON(path string, v any) {
 }
 
 func replayOnce(bin string, p *propDef, file, scratch string) (map[string]any, int, string) {
+	return replayOnceEnv(bin, p, file, scratch, nil)
+}
+
+func replayOnceEnv(bin string, p *propDef, file, scratch string, extra map[string]string) (map[string]any, int, string) {
 	out := filepath.Join(scratch, "replay-out.json")
 	os.Remove(out)
 	runDir := filepath.Join(scratch, "replay")
 	os.MkdirAll(runDir, 0o755)
-	cmd := workerCmd(bin, runDir, map[string]string{"VSIM_PROP": p.ID, "VSIM_MODE": "replay", "VSIM_REPLAY": file, "VSIM_OUT": out, "VSIM_TMP": runDir})
+	env := map[string]string{"VSIM_PROP": p.ID, "VSIM_MODE": "replay", "VSIM_REPLAY": file, "VSIM_OUT": out, "VSIM_TMP": runDir}
+	for k, v := range extra {
+		env[k] = v
+	}
+	cmd := workerCmd(bin, runDir, env)
 	var sb strings.Builder
 	cmd.Stdout, cmd.Stderr = &sb, &sb
 	err := cmd.Run()
 	code := 0
 	if err != nil {
 		code = 2
+		if ee, ok := err.(*exec.ExitError); ok && ee.ExitCode() == 3 {
+			return nil, 3, tail(sb.String(), 3000) // the replay itself ran into the watchdog
+		}
 	}
 	b, rerr := os.ReadFile(out)
 	if rerr != nil {
@@ -1230,6 +1280,18 @@ func replayCmd(path string) int {
 			return 1
 		}
 		fmt.Printf("not reproduced on this tree (history replay of runs %d..%d); tree fingerprint %s vs recorded %s\n", rf.History.From, rf.History.RunIdx, binfo.Fingerprint, rf.TreeFP)
+		if binfo.Fingerprint == rf.TreeFP {
+			return 2
+		}
+		return 0
+	}
+	if strings.HasSuffix(rf.Class, "/cpu-loop") {
+		if _, code, _ := replayOnceEnv(filepath.Join(dir, rf.Harness+".test"), p, path, scratch, map[string]string{"VSIM_WATCHDOG_S": "12"}); code == 3 {
+			fmt.Printf("reproduced: %s: the run stalls without reaching a scheduling point\n", rf.Class)
+			fmt.Printf("VIOLATION property=%s replay=%s\n", rf.Property, path)
+			return 1
+		}
+		fmt.Printf("not reproduced on this tree (no stall); tree fingerprint %s vs recorded %s\n", binfo.Fingerprint, rf.TreeFP)
 		if binfo.Fingerprint == rf.TreeFP {
 			return 2
 		}
